@@ -4,19 +4,16 @@ V = os.path.dirname(os.path.dirname(os.path.abspath(__file__)))
 BASE_NOTE = ('Trusted: Coq 8.16.1 kernel (vm_compute used, native_compute not), the hand-written Gallina model as '
              'validated by the differential correspondence of every run, harness/gen_tables.py, ExtrOcamlBasic '
              'extraction + coq/Extract/driver.ml (cross-checked against vm_compute each run), the Python harness. ')
-CHECKS = {
- 'C20': dict(
-   text=('Theorems (Coq, closed under the global context) that the model of LineNumbersCalculator / '
-         'pos_to_lineno_colno equals the declarative line/column (number of newlines before the position; distance '
-         'to the nearest preceding newline) for every string, position and offset setting, with the inverse reading '
-         'of the property as a corollary; the model is tied to /repo by exhaustive correspondence over all strings to '
-         'length 6 (8 thorough) over {a,\\n,\\r,space} x all positions x offset settings and by strict-mode error '
-         'reports on random faulty documents. Unbounded proof is the right level because the property is a pure '
-         'arithmetic law over all strings.'),
-   note=BASE_NOTE + 'bisect.bisect_right is modelled by its specification on sorted lists.',
-   technique='Coq proof (induction over the string) + differential correspondence model vs implementation',
-   design='6/C20'),
-}
+def load_checks():
+    d = os.path.join(V, 'harness', 'manifest.d')
+    out = {}
+    for f in sorted(os.listdir(d)):
+        if f.endswith('.json'):
+            c = json.load(open(os.path.join(d, f)))
+            c['note'] = BASE_NOTE + c.get('note', '')
+            out[f[:-5]] = c
+    return out
+CHECKS = load_checks()
 NOT_YET = {}
 ALL = ['C%02d' % i for i in range(1, 21)]
 
